@@ -138,3 +138,33 @@ Definition qwsum (cs : list (@qcons V)) : nat := fold_right (fun c n => qweight 
 Definition qpweight (pp : @qprod V) : nat := match pp with PGet => 1 | PDist _ j => 2 * (ncons - j) + 2 | PEnd => 0 end.
 Definition qmeasure (m : @qstate V) : nat := (2 * ncons + 3) * length (qsrc m) + qpweight (qpp m) + qwsum (qcs m).
 End CopyProdStopEnabled.
+
+(* a canonical completion (to make the protocol a function of the schedule) *)
+Section CopyProdStopDrive.
+Context {V : Type}.
+Variable ncons : nat.
+Variable beh : nat -> list (res V) -> cact.
+
+Fixpoint first_open (cs : list (@qcons V)) (i : nat) : option qchoice :=
+  match cs with
+  | [] => None
+  | c :: r => match qph c with QRecv => Some (QEof i) | QBusy => Some (QReady i) | _ => first_open r (S i) end
+  end.
+
+Definition qpick (m : @qstate V) : qchoice :=
+  match qpp m with
+  | PGet => QPull
+  | PDist _ j => match nth_error (qcs m) j with
+                 | Some (mkQ _ QRecv) => QSend
+                 | Some (mkQ _ QBusy) => QReady j
+                 | _ => QSkip
+                 end
+  | PEnd => match first_open (qcs m) 0 with Some ch => ch | None => QPull end
+  end.
+
+Fixpoint qdrive (n : nat) (m : @qstate V) : @qstate V :=
+  match n with
+  | O => m
+  | S n' => if qcomplete m then m else qdrive n' (qstep ncons beh m (qpick m))
+  end.
+End CopyProdStopDrive.
